@@ -52,7 +52,7 @@ CLAIMED["C19"] = dict(engine="entry", design="4 C19",
         "every operation sequence on an entry with distinct keys refines an insertion-ordered dictionary (induction over the call list), "
         "the three views always agree, ENTRYTYPE/ID lookups, and Field/Block == is exactly same-class-and-same-content; tied to /repo by "
         "bounded-exhaustive and random operation sequences and single-attribute perturbation / copy pairs, plus an independent Python oracle (reference dict).",
-   note="values containing dicts or foreign objects are outside the executable equality model (oracle only); failed-block equality is covered by the library engine (identity of the error object); "
+   note="entries SHARING Field objects are modelled at object level (Model/EntryObj.v: a store of Field objects with identity; C19_obj_refines, C19_obj_store_frame - no mapping operation ever writes into an existing Field object -, C19_obj_other_entries, C19_obj_world_refines; the in-place alternative is refuted by example) and compared on object-level programs (op 25); Field subclasses with odd truth value / equality and entries built over one shared LIST object are checked by the Python oracle only; values containing dicts or foreign objects are outside the executable equality model (oracle only); failed-block equality is covered by the library engine (identity of the error object); "
         "model hand-written, tied by correspondence; extraction cross-checked by vm_compute",
    technique="Coq proof (refinement by induction over histories; reflection of == against a structural relation) + differential correspondence via extracted model")
 CLAIMED["C17"] = dict(engine="sortfields", design="4 C17",
